@@ -184,7 +184,7 @@ class Interp:
                 s.trace.append(fn.name + ':' + blk.name)
                 visits = dict(visits)
                 visits[blk.name] = visits.get(blk.name, 0) + 1
-                if visits[blk.name] > 600:
+                if visits[blk.name] > getattr(self.dom, 'max_visits', 600):
                     raise Unsupported('loop in %s does not terminate abstractly (block %s)' % (fn.name, blk.name))
                 # phis first (parallel)
                 newv = {}
@@ -242,7 +242,11 @@ class Interp:
                                     raise Unsupported('loop condition not decided in %s block %s' % (fn.name, blk.name))
                                 s2 = s1.clone()
                                 s1.pc.append(c)
-                                s2.pc.append(self.dom.negate(c))
+                                nc = self.dom.negate(c)
+                                s2.pc.append(nc)
+                                if hasattr(self.dom, 'refine'):
+                                    self.dom.refine(s1, c)
+                                    self.dom.refine(s2, nc)
                                 f1 = self.dom.feasible(s1.pc)
                                 f2 = self.dom.feasible(s2.pc)
                                 if f1:
@@ -258,15 +262,27 @@ class Interp:
                             for cval, lab in term.x['cases']:
                                 s2 = s1.clone()
                                 dec, cond = self.dom.cmp('icmp', 'eq', v, self.dom.int_const(cval, term.ops[0].ty.a), term.ops[0].ty)
+                                if dec is True:
+                                    cont.append((s2, fn.bmap[lab]))
+                                    others = None
+                                    break
+                                if dec is False:
+                                    continue
                                 s2.pc.append(cond)
+                                if hasattr(self.dom, 'refine'):
+                                    self.dom.refine(s2, cond)
                                 others.append(cond)
                                 if self.dom.feasible(s2.pc):
                                     cont.append((s2, fn.bmap[lab]))
-                            s2 = s1.clone()
-                            for c in others:
-                                s2.pc.append(self.dom.negate(c))
-                            if self.dom.feasible(s2.pc):
-                                cont.append((s2, fn.bmap[term.x['default']]))
+                            if others is not None:
+                                s2 = s1.clone()
+                                for c in others:
+                                    nc = self.dom.negate(c)
+                                    s2.pc.append(nc)
+                                    if hasattr(self.dom, 'refine'):
+                                        self.dom.refine(s2, nc)
+                                if self.dom.feasible(s2.pc):
+                                    cont.append((s2, fn.bmap[term.x['default']]))
                         else:
                             tgt = term.x['default']
                             for cval, lab in term.x['cases']:
@@ -286,12 +302,12 @@ class Interp:
             s1.env = dict(saved)
         return out
 
-    def run_region(self, fn, args, start, env0, stops, st=None):
+    def run_region(self, fn, args, start, env0, stops, st=None, prev=None):
         """abstractly execute from block `start` (its phis pre-bound by env0) until a block in `stops`
         is reached again or the function returns.  -> (region_exits [(state, block, from_block)], returns [(state, ret)])"""
         st = st or State()
         ro = []
-        rets = self._run_fn(fn, args, st, 0, start=start, prev0=None, stops=set(stops), env0=env0, region_out=ro)
+        rets = self._run_fn(fn, args, st, 0, start=start, prev0=prev, stops=set(stops), env0=env0, region_out=ro)
         return ro, rets
 
     # ---- operands
@@ -456,11 +472,20 @@ class Interp:
             if dec is False:
                 st.env[ins.res] = b
                 return [st]
+            if hasattr(d, 'select'):
+                r = d.select(c, a, b)
+                if r is not NotImplemented:
+                    st.env[ins.res] = r
+                    return [st]
             s2 = st.clone()
             st.pc.append(c)
-            s2.pc.append(d.negate(c))
+            nc = d.negate(c)
+            s2.pc.append(nc)
             st.env[ins.res] = a
             s2.env[ins.res] = b
+            if hasattr(d, 'refine'):
+                d.refine(st, c)
+                d.refine(s2, nc)
             return [s for s in (st, s2) if d.feasible(s.pc)]
         if op == 'alloca':
             st.nalloca += 1
